@@ -34,20 +34,79 @@ def run_case(case):
         return {"err": type(e).__name__ + ": " + str(e)[:200]}
 
 
+def run_threads(batches):
+    """each batch: a list of cases run concurrently, one thread per case, under a minimal switch interval;
+    also each case alone in a fresh worker thread. Returns per batch: {"concurrent": [...], "worker": [...]}"""
+    import threading
+    sys.setswitchinterval(1e-6)
+    out = []
+    for cases in batches:
+        res = [None] * len(cases)
+        barrier = threading.Barrier(len(cases))
+
+        def work(i):
+            barrier.wait()
+            res[i] = run_case(cases[i])
+
+        ts = [threading.Thread(target=work, args=(i,)) for i in range(len(cases))]
+        for t in ts:
+            t.start()
+        for t in ts:
+            t.join()
+        solo = []
+        for c in cases[:2]:
+            box = []
+            t = threading.Thread(target=lambda: box.append(run_case(c)))
+            t.start()
+            t.join()
+            solo.append(box[0] if box else {"err": "thread died"})
+        out.append({"concurrent": res, "worker": solo})
+    return out
+
+
+def run_history(history):
+    """a list of calls executed in this one process, in order; each call is a case, optionally sharing the
+    registry built by an earlier call (`reuse`: index of that call)"""
+    from . import stages
+    regs = []
+    out = []
+    for call in history:
+        try:
+            if call.get("reuse") is not None and regs[call["reuse"]] is not None:
+                reg = regs[call["reuse"]]
+            else:
+                registry = stages.make_registry(tuple(call.get("kinds", ("IntString", "FloatString", "BooleanString"))),
+                                                datetime=call.get("datetime", False))
+                reg, _ = stages.build_registry([tuple(x) for x in call["inputs"]], registry, cmps_from(call["cmps"]))
+            regs.append(reg)
+            out.append({"text": stages.render_impl(reg, call["job"])})
+        except Exception as e:  # noqa
+            if len(regs) < len(out) + 1:
+                regs.append(None)
+            out.append({"err": type(e).__name__})
+    return out
+
+
 def main():
-    cases = json.load(sys.stdin)
-    out = [run_case(c) for c in cases]
+    mode = sys.argv[1] if len(sys.argv) > 1 else "cases"
+    data = json.load(sys.stdin)
+    if mode == "threads":
+        out = run_threads(data)
+    elif mode == "history":
+        out = run_history(data)
+    else:
+        out = [run_case(c) for c in data]
     json.dump(out, sys.stdout)
 
 
-def run_in_fresh_process(cases, hashseed=None, repo=None, timeout=600):
+def run_in_fresh_process(cases, hashseed=None, repo=None, timeout=600, mode="cases"):
     import subprocess
     env = dict(os.environ)
     if hashseed is not None:
         env["PYTHONHASHSEED"] = str(hashseed)
     here = os.path.dirname(os.path.dirname(os.path.abspath(__file__)))
     env["PYTHONPATH"] = here + os.pathsep + (repo or os.environ.get("J2M_REPO", "/repo"))
-    p = subprocess.run([sys.executable, "-m", "j2m.worker"], input=json.dumps(cases).encode("utf-8"), env=env,
+    p = subprocess.run([sys.executable, "-m", "j2m.worker", mode], input=json.dumps(cases).encode("utf-8"), env=env,
                        stdout=subprocess.PIPE, stderr=subprocess.PIPE, timeout=timeout)
     if p.returncode != 0:
         raise RuntimeError("worker failed: " + p.stderr.decode("utf-8", "replace")[-1500:])
